@@ -215,6 +215,16 @@ def clear (_ : Assoc K V) : Assoc K V := []
 /-- `swap(other)`: contents and default value change places -/
 def swap (a b : Assoc K V × V) : (Assoc K V × V) × (Assoc K V × V) := (b, a)
 
+/-- copy construction `map b(a)` (map_impl.hpp:45): the copy starts with the contents and the
+default value of the original; afterwards the two are separate containers -/
+def copy (a : Assoc K V × V) : Assoc K V × V := (a.1, a.2)
+
+/-- two containers of one program (the original and its copy): an operation addressed to
+container `i` is applied there with that container's default value, the other one is untouched -/
+def applyAt (u : User K V A) (p : (Assoc K V × V) × (Assoc K V × V)) (i : Bool) (op : Op K V A) :
+    (Assoc K V × V) × (Assoc K V × V) :=
+  if i then (p.1, ((apply u p.2.2 p.2.1 op).1, p.2.2)) else (((apply u p.1.2 p.1.1 op).1, p.1.2), p.2)
+
 /-- the `map` invariant: one pair per key -/
 def NodupKeys (m : Assoc K V) : Prop := (m.map Prod.fst).Nodup
 
